@@ -9,6 +9,10 @@ KERNELS = ["_step_1", "_step_2", "_step_3", "_step_4", "_step_5", "_fill_wigner_
            "_rotate", "_rotate_Horner", "_evaluate_Horner", "_complex_powers", "to_euler_phases"]
 
 
+class SchedulerStall(Exception):
+    """the harness itself stalled (not a property violation): reported as an infrastructure error"""
+
+
 class Scheduler:
     def __init__(self, schedule):
         self.schedule = list(schedule)
@@ -28,8 +32,8 @@ class Scheduler:
                 self._skip()
                 if self.running is None and (self.pos >= len(self.schedule) or self.schedule[self.pos] == tid):
                     break
-                if not self.cv.wait(timeout=20):
-                    raise RuntimeError("scheduler deadlock")
+                if not self.cv.wait(timeout=300):
+                    raise SchedulerStall("scheduler made no progress for 300 s")
             self.running = tid
             if self.pos < len(self.schedule):
                 self.pos += 1
@@ -137,8 +141,11 @@ def run_threads(calls, schedule, monitor=None):
     for t in ts:
         t.start()
     for t in ts:
-        t.join(60)
+        t.join(900)
     _active["sched"], _active["mon"] = None, None
+    for r in results:
+        if r is None or (r[0] == "raise" and isinstance(r[1], SchedulerStall)):
+            raise SchedulerStall("scheduler stalled; results incomplete")
     return results
 
 
